@@ -10,7 +10,7 @@ import os
 import shutil
 import sys
 
-SRC = '/tmp/seeds'
+SRC = sys.argv[1] if len(sys.argv) > 1 else '/tmp/seeds'
 DST = os.path.join(os.path.dirname(os.path.dirname(os.path.abspath(__file__))), 'seeded')
 
 
